@@ -461,7 +461,7 @@ class Interp:
         if name in mod.classes:
             ci = mod.classes[name]
             return ref(self.node(("cls", ci.fq), lambda: Cls(("cls", ci.fq), ci)))
-        if name in mod.constants:
+        if name in mod.constants and len(self._module_binding(mod, name) or []) <= 1:
             key = (mod.name, name)
             if key in self._consts_memo:
                 return self._consts_memo[key]
@@ -473,6 +473,21 @@ class Interp:
                 v = BOT
             self._consts_memo[key] = v
             return v
+        other = self._module_binding(mod, name)
+        if other is not None:
+            key = (mod.name, name)
+            if key in self._consts_memo:
+                return self._consts_memo[key]
+            self._consts_memo[key] = BOT
+            mfr = Frame(None, mod, ("module", mod.name, name), depth=fr.depth + 1)
+            env: dict[str, AV] = {}
+            try:
+                for st in other:
+                    self._stmt(st, env, mfr)
+            except _Dead:
+                pass
+            self._consts_memo[key] = env.get(name, BOT)
+            return self._consts_memo[key]
         if name in mod.imports:
             fq = self.repo._canonical(mod.imports[name])
             m2, _, attr = fq.rpartition(".")
@@ -485,6 +500,26 @@ class Interp:
                     return v
             return self.lib(fq)
         return None
+
+    @staticmethod
+    def _module_binding(mod: ModuleInfo, name: str) -> list[ast.stmt] | None:
+        """Module-level statements (tuple assignments, augmented assignments, for loops are not followed) that bind `name`."""
+        out = []
+
+        def scan(body: list[ast.stmt]) -> None:
+            for st in body:
+                if isinstance(st, (ast.Assign, ast.AnnAssign, ast.AugAssign)):
+                    tg = st.targets if isinstance(st, ast.Assign) else [st.target]
+                    if any(isinstance(x, ast.Name) and x.id == name for t in tg for x in ast.walk(t)):
+                        out.append(st)
+                elif isinstance(st, (ast.If, ast.Try)):
+                    if isinstance(st, ast.If) and "TYPE_CHECKING" in ast.unparse(st.test):
+                        continue
+                    scan(st.body)
+                    scan(getattr(st, "orelse", []))
+
+        scan(mod.tree.body)
+        return out or None
 
     def lookup(self, name: str, env: dict, fr: Frame) -> AV:
         if name in env:
@@ -1458,8 +1493,15 @@ class Interp:
                 outs.append(top(base.prov))
             for n in base.refs:
                 if isinstance(n, Seq):
-                    s = self.seq(fr, e, n.kind, "slice")
-                    self.grow_elem(s, n.elem)
+                    s = self.seq(fr, e, n.kind, ("slice", n.key))
+                    if n.items is not None and n._elem.bottom and all(p.concrete and len(p.consts) == 1 for p in parts):
+                        lo, hi, st = [p.values()[0] for p in parts]
+                        try:
+                            s.items = list(n.items[lo:hi:st])
+                        except OP_ERRORS:
+                            self.grow_elem(s, n.elem)
+                    else:
+                        self.grow_elem(s, n.elem)
                     outs.append(ref(s))
                 else:
                     outs.append(self.unknown_value("slice of " + n.kind, ref(n)))
